@@ -67,3 +67,181 @@ def _nsmap_cases():
 
 
 EXHAUSTIVE = {"pyxform.survey.Survey.get_nsmap": _nsmap_cases}
+
+
+# ------------------------------------------------------------------ itext block and padding (C07 / C08 / C06), bounded
+
+def _svb_forms(content):
+    return [k for k in content if k != "type"]
+
+
+def SVB_pad_problems(before, after):
+    """_add_empty_translations: same ids and forms in every language, '-' only where nothing was written, nothing else touched."""
+    out = []
+    t0, t1 = before._translations, after._translations
+    if list(t1) != list(t0):
+        out.append(f"languages changed: {list(t0)} -> {list(t1)}")
+    # what was written stays exactly as written
+    for lang, tr in t0.items():
+        for path, content in tr.items():
+            for form, val in content.items():
+                if t1.get(lang, {}).get(path, {}).get(form, "<missing>") != val:
+                    out.append(f"written entry changed: [{lang}][{path}][{form}]")
+    ids = {}
+    for tr in t0.values():
+        for path, content in tr.items():
+            ids.setdefault(path, [])
+            for f in _svb_forms(content):
+                if f not in ids[path]:
+                    ids[path].append(f)
+    # choices of itext lists always have an entry
+    for name, itemset in (getattr(before, "choices", None) or {}).items():
+        if itemset.requires_itext and t0:
+            for idx in range(len(itemset.options)):
+                ids.setdefault(f"{name}-{idx}", ["long"] if f"{name}-{idx}" not in ids else ids[f"{name}-{idx}"])
+    for lang, tr in t1.items():
+        if set(tr) != set(ids):
+            out.append(f"[{lang}] ids {sorted(tr)} != {sorted(ids)}")
+            continue
+        for path, forms in ids.items():
+            have = set(_svb_forms(tr[path]))
+            if have != set(forms):
+                out.append(f"[{lang}][{path}] forms {sorted(have)} != {sorted(forms)}")
+            for f in forms:
+                was = t0.get(lang, {}).get(path, {}).get(f, None)
+                now = tr[path].get(f)
+                if was is None and now != "-":
+                    out.append(f"[{lang}][{path}][{f}] padded with {now!r}, not '-'")
+    return out[:5]
+
+
+def _svb_pad_cases():
+    langs_sets = [[], ["en"], ["en", "fr"], ["default", "fr", "sw"]]
+    paths = ["/d/a:label", "/d/a:hint", "l-0", "l-1"]
+    forms = ["long", "guidance", "image", "audio"]
+    import random
+
+    rnd = random.Random(7)
+    for langs in langs_sets:
+        for _ in range(400 if langs else 1):
+            tr = {}
+            for lang in langs:
+                tr[lang] = {}
+                for p in paths:
+                    if rnd.random() < 0.55:
+                        c = {f: (f"{lang}:{p}:{f}" if rnd.random() < 0.8 else {"text": f"{lang} ${{a}}", "output_context": None})
+                             for f in forms if rnd.random() < 0.4}
+                        if c or rnd.random() < 0.2:
+                            c["type"] = "choice" if p.startswith("l-") else "question"
+                            tr[lang][p] = c
+            choices = None
+            if rnd.random() < 0.6:
+                opts = [types.SimpleNamespace(name=f"o{i}") for i in range(rnd.choice([1, 2, 3]))]
+                choices = {"l": types.SimpleNamespace(requires_itext=rnd.random() < 0.7, options=opts, name="l")}
+            yield {"self": types.SimpleNamespace(_translations=tr, choices=choices)}
+
+
+def SVB_itext_problems(self, result):
+    """Survey.itext: structure of the itext block against self._translations (real minidom nodes inspected)."""
+    out = []
+    if result.tagName != "itext":
+        return [f"root is {result.tagName}"]
+    trs = [n for n in result.childNodes if n.nodeType == 1]
+    langs = list(self._translations)
+    if [t.getAttribute("lang") for t in trs] != langs or any(t.tagName != "translation" for t in trs):
+        return [f"translations {[t.getAttribute('lang') for t in trs]} != languages {langs}"]
+    for t, lang in zip(trs, langs):
+        is_default = lang == self.default_language
+        if t.hasAttribute("default") != is_default or (is_default and t.getAttribute("default") != "true()"):
+            out.append(f"default marking of {lang!r} wrong (default language {self.default_language!r})")
+        texts = [n for n in t.childNodes if n.nodeType == 1]
+        want_ids = list(self._translations[lang])
+        if [x.getAttribute("id") for x in texts] != want_ids or any(x.tagName != "text" for x in texts):
+            out.append(f"[{lang}] text ids {[x.getAttribute('id') for x in texts]} != {want_ids}")
+            continue
+        for x, path in zip(texts, want_ids):
+            content = self._translations[lang][path]
+            kind = path.partition(":")[-1]
+            expected = []
+            for form, val in content.items():
+                if form == "type":
+                    continue
+                text = val["text"] if isinstance(val, dict) else val
+                shown, parsed = _svb_iov(text)
+                if kind == "hint":
+                    expected.append(("guidance" if form == "guidance" else None, shown, parsed))
+                elif form == "long":
+                    expected.append((None, shown, parsed))
+                elif form in ("image", "big-image"):
+                    if shown != "-":
+                        expected.append((form, "jr://images/" + shown, parsed))
+                elif shown != "-":
+                    expected.append((form, f"jr://{form}/" + shown, parsed))
+            values = [n for n in x.childNodes if n.nodeType == 1]
+            got = []
+            for v in values:
+                form = v.getAttribute("form") if v.hasAttribute("form") else None
+                got.append((form, "".join(_svb_flat(c) for c in v.childNodes)))
+            want = [(f, _svb_rendered(s_, p_)) for f, s_, p_ in expected]
+            if got != want or any(v.tagName != "value" for v in values):
+                out.append(f"[{lang}][{path}] values {got} != {want}")
+    return out[:5]
+
+
+def _svb_iov(text):
+    """The stub insert_output_values used by the generator: references become <output/> and the rest is escaped."""
+    if text == "-" or "${" not in text:
+        return text, False
+    esc = text.replace("&", "&amp;").replace("<", "&lt;").replace(">", "&gt;")
+    return esc.replace("${a}", '<output value=" /d/a "/>'), True
+
+
+def _svb_rendered(shown, parsed):
+    """What a value node must contain: the text itself as character data, or (when parsed) text pieces and outputs."""
+    if not parsed:
+        return shown
+    return shown.replace("&lt;", "<").replace("&gt;", ">").replace("&amp;", "&").replace('<output value=" /d/a "/>', "{output: /d/a }")
+
+
+def _svb_flat(n):
+    if n.nodeType in (3, 4):
+        return n.data
+    if n.nodeType == 1 and n.tagName == "output":
+        return "{output:" + n.getAttribute("value") + "}"
+    return "<" + getattr(n, "tagName", "?") + ">"
+
+
+def _svb_itext_cases():
+    import random
+
+    rnd = random.Random(11)
+    texts = ["plain", "a < b & c", "<b>bold</b>", "x ${a} y", "${a}", "-", "a &amp; ${a} <i>", "]]>", ""]
+    paths = ["/d/a:label", "/d/a:hint", "/d/b:jr:constraintMsg", "l-0", "/d/g:label"]
+    forms = ["long", "guidance", "image", "audio", "big-image", "video"]
+    for langs, default in ((["en"], "en"), (["en", "fr"], "fr"), (["default", "fr"], "default"), (["en", "fr", "sw"], "xx"),
+                           (["fr", "en"], "en"), (["English", "english", "ENGLISH "], "English"), (["en ", "en"], "en"),
+                           (["default", "Default"], "default")):
+        for _ in range(300):
+            tr = {}
+            ids = [p for p in paths if rnd.random() < 0.7]
+            for lang in langs:
+                tr[lang] = {}
+                for p in ids:
+                    c = {}
+                    for f in forms:
+                        if rnd.random() < 0.35:
+                            t = rnd.choice(texts)
+                            c[f] = {"text": t, "output_context": None} if rnd.random() < 0.5 else t
+                    c["type"] = "question"
+                    tr[lang][p] = c
+
+            def iov(text, context=None):
+                return _svb_iov(text)
+
+            yield {"self": types.SimpleNamespace(_translations=tr, default_language=default, insert_output_values=iov)}
+
+
+EXHAUSTIVE.update({
+    "pyxform.survey.Survey._add_empty_translations": _svb_pad_cases,
+    "pyxform.survey.Survey.itext": _svb_itext_cases,
+})
